@@ -81,6 +81,8 @@ type qosRun struct {
 	ng          *ngate         // parks allocators inside NextPacketID (forced schedules)
 	wl, pa      *ngate         // write loop / publish.afterAlias gates (quota schedules)
 	monitorOnly bool           // the history is judged by the monitors only
+	forcePid    uint16         // gated bursts: the publishers\' own packet identifier (0 = random 1..3)
+	forceOne    bool           // gated bursts: one publisher, one topic, QoS 1
 	padTo       int            // payload length of the next publishes (write-buffer bursts)
 	wbuf        int            // write-buffer histories: ClientNetWriteBufferSize in force
 }
@@ -317,6 +319,9 @@ func (q *qosRun) publishP(k int, t int, qos byte, mei uint32) {
 		// The publisher's own identifier varies so that it collides with identifiers the broker uses towards S.
 		if qos > 0 {
 			pk.PacketID = uint16(1 + q.rng.Intn(3))
+			if q.forcePid > 0 {
+				pk.PacketID = q.forcePid
+			}
 		}
 		pk.ProtocolVersion = q.p[k].Version
 		data, _ := broker.Encode(pk)
@@ -386,7 +391,11 @@ func (q *qosRun) gatedBurst(n int) {
 	g.disarm() // later arrivals (the publishers' own acknowledgements) pass
 	if parked {
 		for i := 0; i < n; i++ {
-			q.publishP(q.rng.Intn(2), q.rng.Intn(2), byte(1+q.rng.Intn(2)), 0)
+			if q.forceOne {
+				q.publishP(0, 0, 1, 0)
+			} else {
+				q.publishP(q.rng.Intn(2), q.rng.Intn(2), byte(1+q.rng.Intn(2)), 0)
+			}
 		}
 	} else {
 		q.b.Hung = true
@@ -1118,6 +1127,22 @@ func (q *qosRun) runScript(c qosCfg) {
 			q.publishS(2, 5, true, q.open2[0].uid)
 			q.ackS(packets.Pubrel, 5, 0)
 		}
+	case "c08q": // queue-full rollback while the publisher's identifier equals the identifier of S's own open QoS 2 exchange
+		q.publishS(2, 2, false, 0)
+		q.forcePid = 2
+		q.gatedBurst(3)
+		q.forcePid = 0
+		if len(q.open2) > 0 {
+			q.publishS(2, 2, true, q.open2[0].uid)
+			q.ackS(packets.Pubrel, 2, 0)
+		}
+	case "c12q": // a delivery dropped on a full queue must be gone: not first transmitted by a later resend, after later messages
+		q.forcePid, q.forceOne = 7, true
+		q.gatedBurst(3)
+		q.forcePid, q.forceOne = 0, false
+		q.publishP(0, 0, 1, 0)
+		q.disconnectS(false)
+		q.reconnect(c, false)
 	case "c10q": // queue-full rollback while the publisher's identifier collides with one in flight to S
 		q.publishP(0, 0, 1, 0)
 		q.publishP(0, 0, 2, 0)
@@ -1420,6 +1445,14 @@ func engQos(seed int64, tier string, args []string, out *sx.Out) {
 	nq := 6
 	if tier == "thorough" {
 		nq = 120
+	}
+	for _, sc := range []string{"c08q", "c12q", "c08q", "c12q"} {
+		if only != "" && only != sc {
+			continue
+		}
+		c := base
+		c.srvrm, c.rm, c.gate, c.script = 4, 20, true, sc
+		emit(c)
 	}
 	for i := 0; i < nq && (only == "" || only == "c10q"); i++ {
 		c := base
